@@ -31,6 +31,8 @@ type pop3Model struct {
 	events                             map[string][]tsEvent
 	undec                              []string
 	ok                                 bool
+	visitsDone                         bool
+	visitList                          []pop3Visit
 }
 
 func (c *Ctx) pop3() *pop3Model {
@@ -106,7 +108,15 @@ func (c *Ctx) pop3() *pop3Model {
 			resets = append(resets, fn)
 		}
 		if dp {
-			delprocs = append(delprocs, fn)
+			// a callback that removes belongs to the named function that creates it
+			o := eng.Outer(fn)
+			dup := false
+			for _, d := range delprocs {
+				dup = dup || d == o
+			}
+			if !dup {
+				delprocs = append(delprocs, o)
+			}
 		}
 		if sd {
 			senders = append(senders, fn)
@@ -424,7 +434,7 @@ func (c *Ctx) c13Commit(m *pop3Model) {
 			}
 			nRm++
 			cons := "RemoveMessage@" + shortFn(fn)
-			if fn != m.deleteProc {
+			if eng.Outer(fn) != m.deleteProc {
 				r.Bad("C13/COMMIT", cons, p.InstrPos(in), "Store.RemoveMessage is called outside the delete processor")
 				return
 			}
@@ -464,6 +474,21 @@ func (c *Ctx) c13Commit(m *pop3Model) {
 					}
 				}
 			}
+			if !okID && ok && ic.Call.IsInvoke() && ic.Call.Method.Name() == "ID" {
+				// the removal is the callback of a snapshot iterator: iter(deleted, func(i, msg) {…})
+				if v, isV := m.visitOf(fn); isV && v.elemParam != nil && ic.Call.Value == ssa.Value(v.elemParam) {
+					mb := args[len(args)-2]
+					switch {
+					case v.want:
+						r.Bad("C13/COMMIT", cons, p.InstrPos(in), "the removing callback is run by %s for messages with retain[i] true: unmarked messages are deleted on QUIT", shortFn(v.iter))
+					case func() bool { f := eng.LoadedField(mb); return f == nil || f.Name() != "user" }():
+						r.Bad("C13/COMMIT", cons, p.InstrPos(in), "RemoveMessage does not address the session's own mailbox")
+					default:
+						r.Ok("C13/COMMIT", cons, p.InstrPos(in), "removes msg.ID() of the element %s passes to the callback under !retain[i]", shortFn(v.iter))
+					}
+					return
+				}
+			}
 			if !okID {
 				r.Bad("C13/COMMIT", cons, p.InstrPos(in), "the id removed is not ID() of an element of the session snapshot")
 				return
@@ -483,8 +508,14 @@ func (c *Ctx) c13Commit(m *pop3Model) {
 	}
 	r.Floor("C13/COMMIT", "RemoveMessage call sites in pop3", nRm, 1)
 	// the delete loop must visit every snapshot element: no return / break out of its body
+	delIter := map[*ssa.Function]bool{}
+	for _, v := range m.visits() {
+		if eng.Outer(v.closure) == m.deleteProc {
+			delIter[v.iter] = true
+		}
+	}
 	for _, lp := range m.snapshotLoops() {
-		if lp.fn != m.deleteProc {
+		if lp.fn != m.deleteProc && !delIter[lp.fn] {
 			continue
 		}
 		bodyEntry := lp.header.Succs[0]
@@ -871,6 +902,61 @@ func (c *Ctx) c13Views(m *pop3Model) {
 				r.Bad("C13/TERMINATOR", cons, p.InstrPos(ret), "a multi-line response can end without the \".\" line: the client waits forever")
 			} else {
 				r.Ok("C13/TERMINATOR", cons, p.InstrPos(eng.IfOf(lp.header)), "\".\" follows the listing on every path")
+			}
+		}
+	}
+	// per-message effects moved into the callback of a snapshot iterator
+	for _, v := range m.visits() {
+		if eng.Outer(v.closure) == m.deleteProc {
+			continue
+		}
+		cons := "snapshot-visit@" + shortFn(v.closure)
+		var probs []string
+		nEff := 0
+		hasSend := false
+		eng.EachInstr(v.closure, func(in ssa.Instruction) {
+			switch x := in.(type) {
+			case *ssa.Call:
+				if eng.StaticCallee(x.Common()) != m.send {
+					return
+				}
+				nEff++
+				hasSend = true
+				if v.idxParam == nil || !sprintfHasIndexPlusOne(x.Call.Args[len(x.Call.Args)-1], v.idxParam) {
+					probs = append(probs, "line sent at "+p.InstrPos(in)+" does not carry i+1 as the message number")
+				}
+			case *ssa.Store:
+				// accumulation into a variable of the enclosing function
+				if _, isFV := x.Addr.(*ssa.FreeVar); isFV {
+					nEff++
+				}
+			}
+		})
+		if nEff == 0 {
+			continue
+		}
+		if !v.want {
+			probs = append(probs, "the callback is run by "+shortFn(v.iter)+" for messages with retain[i] false: messages marked deleted are listed or counted")
+		}
+		sort.Strings(probs)
+		if len(probs) > 0 {
+			r.Bad("C13/VIEWS", cons, p.InstrPos(v.site), "%s", strings.Join(probs, "; "))
+		} else {
+			r.Ok("C13/VIEWS", cons, p.InstrPos(v.site), "%d per-message effects in a callback %s runs only under retain[i]; numbers are i+1", nEff, shortFn(v.iter))
+		}
+		if hasSend {
+			isTerm := func(in ssa.Instruction) bool {
+				call, ok := in.(*ssa.Call)
+				if !ok || eng.StaticCallee(call.Common()) != m.send {
+					return false
+				}
+				s, isC := eng.ConstString(firstStringArg(call))
+				return isC && s == "."
+			}
+			if ret := (&eng.Search{Target: eng.IsReturn, Avoid: isTerm}).After(v.site.(ssa.Instruction)); ret != nil {
+				r.Bad("C13/TERMINATOR", cons, p.InstrPos(ret), "a multi-line response can end without the \".\" line: the client waits forever")
+			} else {
+				r.Ok("C13/TERMINATOR", cons, p.InstrPos(v.site), "\".\" follows the listing on every path")
 			}
 		}
 	}
